@@ -538,6 +538,25 @@ namespace hgraph::ts_data_plan_factory_detail
                 return ops.tracking_impl(ops.context, values_.value_memory(slot))->last_modified_time != MIN_DT;
             }
 
+            /**
+             * A key removed and inserted again within one cycle resurrects its
+             * slot with the child it held. remove_key cleared the slot's
+             * modified bit, and a child that already ticked in this cycle
+             * coalesces further writes (it does not notify its parent again),
+             * so the bit must be restored here or the key is missing from
+             * this cycle's modified set although its value is published.
+             */
+            void restore_resurrected_child_modified(const KeySlotStore::InsertResult &result, DateTime modified_time)
+            {
+                if (result.constructed || !slot_value_published(result.slot)) { return; }
+                const auto &ops = element_type_.ops_ref();
+                if (ops.tracking_impl(ops.context, values_.value_memory(result.slot))->last_modified_time == modified_time &&
+                    child_has_current_value(result.slot))
+                {
+                    modified_.set(result.slot);
+                }
+            }
+
             void reserve(std::size_t capacity)
             {
                 keys_.reserve_to(capacity);
@@ -570,6 +589,7 @@ namespace hgraph::ts_data_plan_factory_detail
                     value_published_.set(result.slot);
                     added_.set(result.slot);
                 }
+                restore_resurrected_child_modified(result, modified_time);
                 (void)key_set_tracking_.record_modified(modified_time);
                 return mutation_result(result.slot, result.constructed);
             }
@@ -597,6 +617,7 @@ namespace hgraph::ts_data_plan_factory_detail
                     value_published_.set(result.slot);
                     added_.set(result.slot);
                 }
+                restore_resurrected_child_modified(result, modified_time);
                 (void)key_set_tracking_.record_modified(modified_time);
                 return mutation_result(result.slot, result.constructed);
             }
